@@ -58,7 +58,8 @@ EXPECTED_PROBES = ["kind_sched", "kind_clients", "kind_numba", "two_clients_insi
 
 ENV = {"NUMBA_NUM_THREADS": "16"}      # the sweep needs up to 16 numba threads
 REPO = seams.SP_DIR.rstrip("/")
-WORKLOADS = ("cx", "sjoin", "measures", "intersects_bounds", "pack", "pack_parquet", "read_cx")
+WORKLOADS = ("cx", "sjoin", "measures", "intersects_bounds", "pack", "pack_parquet", "pack_parquet",
+             "pack_parquet", "read_cx")
 CLIENT_OBJECTS = ("array", "rtree", "frame", "dask", "dask_store")
 REF = {"workers": 1, "strategy": "inorder", "switch_p": 0.0, "stall": False}
 
@@ -82,7 +83,8 @@ def cases(tier, base_seed):
                    "npartitions": rng.choice((2, 3, 5)), "right": _right(rng),
                    "tempdir": rng.choice(e1.TEMP_MODES),
                    "schedules": [dict(e1.gen_sim_cfg(rng), seed=rng.getrandbits(32),
-                                      fine=rng.random() < 0.3)
+                                      fine=rng.random() < (0.6 if wl in ("pack_parquet", "read_cx")
+                                                           else 0.3))
                                  for _ in range(3 if tier == "quick" else 8)],
                    "store": e1.gen_store_cfg(rng)}
         elif r < 0.9:
